@@ -5,9 +5,10 @@
 // ChangePassword / ChangeSigScheme on a wallet file; after every op the live client is
 // compared with the model (no decryption), after every k-th op and at the end a FRESH
 // client is opened on the saved file and compared with the model and with the live
-// client, every account is decrypted with its current password (key must equal the
-// model's key) and must refuse other passwords (former passwords of the account,
-// passwords of other accounts, random ones).  Failed ops must leave the file unchanged.
+// client, every account (intermediate reloads: one seeded account) is decrypted with its
+// current password (key must equal the model's key) and must refuse other passwords
+// (former passwords of the account, passwords of other accounts, random ones).  Failed ops
+// must leave the file unchanged.
 package main
 
 import (
@@ -259,7 +260,14 @@ func (h *hist) reloadCheck(final bool) (*account.ClientImpl, *viol) {
 			return fresh, &viol{"reloaded:differs-from-live", fmt.Sprintf("account at index %d: metadata of the reloaded client differs from the live client", i+1)}
 		}
 	}
+	only := -1
+	if !final { // intermediate reloads decrypt one (seeded) account only: scrypt is the whole cost of this monitor
+		only = h.rng.Intn(len(h.model))
+	}
 	for i, a := range h.model {
+		if only >= 0 && i != only {
+			continue
+		}
 		pwd, _ := hex.DecodeString(a.Pwd)
 		acc, err, via := h.open(fresh, i, pwd, h.rng.Intn(4))
 		if err != nil || acc == nil {
@@ -306,9 +314,7 @@ func (h *hist) reloadCheck(final bool) (*account.ClientImpl, *viol) {
 		case final:
 			nOther, nRand = 1, 1
 		default:
-			if i == h.rng.Intn(len(h.model)) {
-				nOther = 1
-			}
+			nOther = 1
 		}
 		for k := 0; k < nOther && len(others) > 0; k++ {
 			wrong[others[(i+k)%len(others)]] = "other"
